@@ -82,6 +82,22 @@ theorem cemits_unetLvC (L : Nat) : ∀ a b : Nat, cemits (unetLvC a b L) = 3 * L
     simp only [unetLvC, cemits_append, cemits_convBlockC, ih]
     simp [cemits]; omega
 
+theorem cemits_mdConvC (k : Bool) (a b : Nat) : cemits (mdConvC k a b) = 0 := by cases k <;> simp [cemits, mdConvC]
+theorem cemits_mdBlockC (k : Bool) (a b : Nat) : cemits (mdBlockC k a b) = 0 := by
+  simp only [mdBlockC, cemits_append, cemits_mdConvC]; simp [cemits]
+
+theorem cemits_mdLvC (L : Nat) : ∀ (k : Bool) (a b : Nat), cemits (mdLvC k a b L) = 3 * L + 1 := by
+  induction L with
+  | zero => intro k a b; simp only [mdLvC, cemits_append, cemits_mdBlockC]; simp [cemits]
+  | succ L ih =>
+    intro k a b
+    simp only [mdLvC, cemits_append, cemits_mdBlockC, cemits_mdConvC, ih]
+    simp [cemits]; omega
+
+theorem cemits_mdUnetC (cin cout F L : Nat) : cemits (mdUnetC cin cout F L) = 3 * (L - 1) + 4 := by
+  simp only [mdUnetC, cemits_append, cemits_mdBlockC, cemits_mdConvC, cemits_mdLvC]
+  simp [cemits]; omega
+
 theorem emits_unet (P : UnetP) (L : Nat) : emits (unet P L) = 3 * L + 1 := by
   cases L with
   | zero => exact emits_unetLv P 0
